@@ -327,8 +327,8 @@ package task
 //@   site context.WithCancelCause#1 ghost runCtx := result.0
 // The outcome is published through the cancellation cause of the registered context. GUARANTEE of the registering
 // caller: "succeeded" is published only for an execution that returned nil, a failure is published as itself.
-//@   site result.1:context.WithCancelCause#1 requires arg0 == errExecutionSucceeded && execOK(h)       [C01,C06]
-//@   site result.1:context.WithCancelCause#2 requires arg0 == execErr && arg0 != nil                   [C01,C06]
+//@   site result.1:context.WithCancelCause#1 requires arg0 == errExecutionSucceeded && execOK(h)       [C01,C06,C03]
+//@   site result.1:context.WithCancelCause#2 requires arg0 == execErr && arg0 != nil                   [C01,C06,C03]
 // RELY of a later caller (what the guarantee above gives every thread): the cause it reads from the context
 // registered for h is "succeeded" only if that execution returned nil.
 //@   site context.Cause#1 requires arg0 == otherExecutionCtx                                           [C01,C06]
@@ -416,6 +416,12 @@ package task
 //@   site (*Tasks).All#1 requires arg1 == nil                             -- wildcards in Taskfile order                [C15]
 //@   ensures call != nil && exactHit ==> len(result) == 1 && result[0].Task == exactTask                               [C15]
 
+// Whether the call limit applies (it does not in watch mode) is an option of the invocation (--watch): looking
+// at the tasks that were asked for never changes it.
+//@ func (*Executor).splitRegularAndWatchCalls
+//@   modifies heap, om_has, om_val, om_len, om_key
+//@   preserves $RUNDATA
+//@   ensures e.Watch == old(e.Watch)                                                                                   [C07]
 // The spelling model is built once, by Setup, before any task runs; the (concurrent) lookups only read it.
 //@ func (*Executor).Setup
 //@   site (*Executor).setupFuzzyModel#1 requires arg0 == e                                                             [C18,C15]
